@@ -752,8 +752,11 @@ func (c *Conn) writev(in [][]byte) (int, error) {
 		n := nwrite
 		onWrittenSize := c.p.g.onWrittenSize
 		if n < size {
-			for i := 0; i < len(in) && n > 0; i++ {
+			for i := 0; i < len(in); i++ {
 				b := in[i]
+				if len(b) == 0 {
+					continue
+				}
 				if n == 0 {
 					c.newToWriteBuf(b)
 					// c.appendWrite(t)
@@ -773,6 +776,8 @@ func (c *Conn) writev(in [][]byte) (int, error) {
 					}
 				}
 			}
+			// the remainder is queued: the whole input has been accepted.
+			nwrite = size
 		}
 	} else {
 		nwrite = 0
